@@ -490,6 +490,10 @@ func familyParam(r *Run, cal *ssa.Function, i int) bool {
 				if n, ok := elemOf(cal.Params[i].Type()).(*types.Named); ok && n.Obj().Name() == mm.TableT {
 					return true
 				}
+				// the destination's bucket array handed in directly (its loads hoisted into the caller)
+				if sl, ok := cal.Params[i].Type().Underlying().(*types.Slice); ok && isBucketType(r, sl.Elem()) {
+					return true
+				}
 			}
 		case mm.SumSize, mm.AddSize:
 			return true
@@ -609,4 +613,36 @@ func nonEscapingParam(r *Run, cal *ssa.Function, i int, depth int) bool {
 		}
 	})
 	return ok
+}
+
+// copyDest: the table, as a value of the caller, that a call of the bucket-copy routine copies into: the argument for
+// its table parameter, or - when the caller hands in the destination's bucket array - the table that array was read from.
+func copyDest(r *Run, mm *core.MapModel, c *ssa.Call) ssa.Value {
+	var dest ssa.Value
+	for i, p := range mm.Copy.Params {
+		if i >= len(c.Call.Args) {
+			break
+		}
+		if n, ok := elemOf(p.Type()).(*types.Named); ok && n.Obj().Name() == mm.TableT {
+			dest = c.Call.Args[i]
+		}
+	}
+	if dest != nil {
+		return dest
+	}
+	for i, p := range mm.Copy.Params {
+		if i >= len(c.Call.Args) {
+			break
+		}
+		if sl, ok := p.Type().Underlying().(*types.Slice); ok && isBucketType(r, sl.Elem()) {
+			roots := map[ssa.Value]string{}
+			tableFieldLoads(mm, c.Call.Args[i], roots, map[ssa.Value]bool{}, 0)
+			if len(roots) == 1 {
+				for v := range roots {
+					dest = v
+				}
+			}
+		}
+	}
+	return dest
 }
